@@ -178,6 +178,24 @@ def r_deleg(f):
                 if via_checked:
                     guards.append("checked_sub(self.%s, 1) is Some" % dimname)
                 good = [g for g in guards if not g.startswith("WRONG:")]
+                if good and cb is b and not via_checked:
+                    # the delegating call sits in the wrapper's own body: the comparison must DECIDE whether it runs - a switch
+                    # one successor of which dominates the call.  `cond.then_some(self.remove_*(..))` evaluates the call first.
+                    domw = b.dominators()
+                    controls = False
+                    for bi2, bl in enumerate(b.blocks):
+                        tt = bl["term"]
+                        if tt and tt["k"] == "switch" and not bl["cleanup"]:
+                            c = strip(db.expr(tt["discr"]))
+                            while c[0] == "un" and c[1] == "Not":
+                                c = strip(c[2])
+                            if c[0] == "bin" and c[1] in ("Ne", "Eq", "Gt", "Lt", "Ge", "Le") and any(const_usize(strip(o)) == 0 for o in (c[2], c[3])):
+                                succs = [x[1] for x in tt["targets"]] + [tt["otherwise"]]
+                                if any(sx == bi or sx in domw.get(bi, set()) for sx in succs) and not all(sx == bi or sx in domw.get(bi, set()) for sx in succs):
+                                    controls = True
+                    if not controls:
+                        good = []
+                        guards = ["EAGER: the call of %s is evaluated before / independently of the comparison" % want]
                 R.inst(b.ident, "guarded by a comparison of self.%s with 0: %s" % (dimname, guards), bool(good))
                 if not good:
                     R.fail(b.ident, "guard:%s" % ",".join(guards), "%s is not guarded by `self.%s != 0` (found %s): pop on an empty array must return None" % (b.ident, dimname, guards), b.where())
